@@ -366,7 +366,11 @@ def _range_of(it, depth=0):
             r = _range_of(a[0], depth + 1)
             if r is not None and r[0] == const("int", 0):
                 return a[1], r[1]
+        if n == "new" and it[1].endswith("RangeInclusive::new") and len(a) == 2:
+            return a[0], _add(a[1], const("int", 1))  # a..=b runs over a..b+1
         return None
+    if it[0] == "agg" and it[1].endswith("ops::RangeInclusive") and len(it[4]) >= 2:
+        return it[4][0], _add(it[4][1], const("int", 1))
     if it[0] in ("field", "arg", "index"):
         from .sym import mk_len
         return const("int", 0), mk_len(it)
